@@ -79,6 +79,7 @@ struct Extract {
     path: Vec<String>,
     rules: BTreeSet<String>,
     header: Option<Section>,
+    members: Option<Section>,
     keep: Option<Vec<String>>,
     fns: Vec<FnSpec>,
 }
@@ -111,6 +112,8 @@ fn parse_unit(path: &str, unit: &mut Unit) {
         if let (Some(ex), Some(s)) = (cur.as_mut(), sec.take()) {
             if s.kind == "header" {
                 ex.header = Some(s);
+            } else if s.kind == "members" {
+                ex.members = Some(s);
             } else {
                 if ex.fns.is_empty() {
                     ex.fns.push(FnSpec::default());
@@ -148,7 +151,7 @@ fn parse_unit(path: &str, unit: &mut Unit) {
                     flush_raw(&mut raw, raw_line0, &mut unit.chunks);
                     let mut segs: Vec<String> = arg.split(" / ").map(|s| s.trim().to_string()).collect();
                     let file = segs.remove(0);
-                    cur = Some(Extract { line: ln, file, path: segs, rules: BTreeSet::new(), header: None, keep: None, fns: vec![] });
+                    cur = Some(Extract { line: ln, file, path: segs, rules: BTreeSet::new(), header: None, members: None, keep: None, fns: vec![] });
                 }
                 "end" => {
                     close_sec(&mut cur, &mut cur_sec);
@@ -166,7 +169,7 @@ fn parse_unit(path: &str, unit: &mut Unit) {
                         "keep" => cur.as_mut().unwrap().keep = Some(arg.split_whitespace().map(String::from).collect()),
                         "fn" => cur.as_mut().unwrap().fns.push(FnSpec { name: arg.to_string(), sections: vec![] }),
                         "ret" | "sig" | "param" | "loop" | "closure" | "before" | "after" | "inside-start" | "inside-end" | "wrap" | "replace"
-                        | "delete" | "before-each" | "after-each" | "header" => {
+                        | "delete" | "before-each" | "after-each" | "header" | "arg-each" | "splice" | "members" | "wrap-each" | "replace-each" | "delete-each" => {
                             cur_sec = Some(Section { kind: kw.to_string(), arg: arg.to_string(), line0: ln + 1, file: path.to_string(), text: String::new() });
                         }
                         _ => undecided(&format!("{path}:{ln}: unknown directive //@{kw}")),
@@ -218,6 +221,7 @@ struct Edit {
     text: String,
     origin: Origin,
     section: String,
+    copy: Option<Range<usize>>, // after `text`, emit a copy of this source region (with its edits)
 }
 
 // ---------------------------------------------------------------- anchors
@@ -231,6 +235,7 @@ struct Node {
     block: Option<Range<usize>>, // primary inner block, including braces
     header_end: Option<usize>,   // loops: start of the body block; closures: end of `|..|` (+ ret type)
     body: Option<Range<usize>>,  // closures: body expression range
+    aux: Option<(usize, bool)>,  // calls: (offset of the closing paren, has arguments)
 }
 
 struct Scan {
@@ -242,7 +247,11 @@ struct Scan {
 impl Scan {
     fn push(&mut self, kind: &'static str, name: String, range: Range<usize>, block: Option<Range<usize>>, header_end: Option<usize>, body: Option<Range<usize>>) {
         let stmt = self.stmts.last().cloned().unwrap_or(range.clone());
-        self.nodes.push(Node { kind, name, range, stmt, block, header_end, body });
+        self.nodes.push(Node { kind, name, range, stmt, block, header_end, body, aux: None });
+    }
+    fn push_call(&mut self, kind: &'static str, name: String, range: Range<usize>, close: usize, has_args: bool) {
+        let stmt = self.stmts.last().cloned().unwrap_or(range.clone());
+        self.nodes.push(Node { kind, name, range, stmt, block: None, header_end: None, body: None, aux: Some((close, has_args)) });
     }
 }
 
@@ -269,6 +278,16 @@ fn base_ident(e: &syn::Expr) -> String {
         syn::Expr::MethodCall(m) => base_ident(&m.receiver),
         _ => String::new(),
     }
+}
+
+fn self_src_op(op: &syn::BinOp) -> String {
+    use syn::BinOp::*;
+    match op {
+        Add(_) => "+", Sub(_) => "-", Mul(_) => "*", Div(_) => "/", Rem(_) => "%", And(_) => "&&", Or(_) => "||",
+        BitXor(_) => "^", BitAnd(_) => "&", BitOr(_) => "|", Shl(_) => "<<", Shr(_) => ">>", Eq(_) => "==", Lt(_) => "<",
+        Le(_) => "<=", Ne(_) => "!=", Ge(_) => ">=", Gt(_) => ">", _ => "op=",
+    }
+    .to_string()
 }
 
 fn is_assign_op(op: &syn::BinOp) -> bool {
@@ -322,9 +341,28 @@ impl<'ast> Visit<'ast> for Scan {
                     syn::Expr::Path(p) => p.path.segments.last().map(|s| s.ident.to_string()).unwrap_or_default(),
                     _ => String::new(),
                 };
-                self.push("call", name, r, None, None, None)
+                self.push_call("call", name, r, br(c.paren_token.span.close()).start, !c.args.is_empty())
             }
-            syn::Expr::MethodCall(m) => self.push("mcall", m.method.to_string(), r, None, None, None),
+            syn::Expr::MethodCall(m) => self.push_call("mcall", m.method.to_string(), r, br(m.paren_token.span.close()).start, !m.args.is_empty()),
+            syn::Expr::Binary(b) => {
+                let op = self_src_op(&b.op);
+                self.push("binop", op, r, None, None, None)
+            }
+            syn::Expr::Index(_) => self.push("index", String::new(), r, None, None, None),
+            syn::Expr::Field(f) => {
+                let name = match &f.member { syn::Member::Named(i) => i.to_string(), syn::Member::Unnamed(i) => i.index.to_string() };
+                self.push("field", name, r, None, None, None)
+            }
+            syn::Expr::Reference(_) => self.push("ref", String::new(), r, None, None, None),
+            syn::Expr::Unary(_) => self.push("unary", String::new(), r, None, None, None),
+            syn::Expr::Struct(st) => self.push("struct", st.path.segments.last().map(|s| s.ident.to_string()).unwrap_or_default(), r, None, None, None),
+            syn::Expr::Path(p) => self.push("path", p.path.segments.last().map(|s| s.ident.to_string()).unwrap_or_default(), r, None, None, None),
+            syn::Expr::Lit(_) => self.push("lit", String::new(), r, None, None, None),
+            syn::Expr::Paren(_) => self.push("paren", String::new(), r, None, None, None),
+            syn::Expr::Tuple(_) => self.push("tuple", String::new(), r, None, None, None),
+            syn::Expr::Range(_) => self.push("range", String::new(), r, None, None, None),
+            syn::Expr::Array(_) => self.push("array", String::new(), r, None, None, None),
+            syn::Expr::Await(_) => self.push("await", String::new(), r, None, None, None),
             syn::Expr::Macro(m) => {
                 let name = m.mac.path.segments.last().map(|s| s.ident.to_string()).unwrap_or_default();
                 self.push("macro", name, r, None, None, None)
@@ -495,11 +533,15 @@ impl<'a> Gen<'a> {
     }
     fn ins(&mut self, at: usize, text: String, origin: Origin, section: &str) {
         self.seq += 1;
-        self.edits.push(Edit { start: at, end: at, seq: self.seq, text, origin, section: section.to_string() });
+        self.edits.push(Edit { start: at, end: at, seq: self.seq, text, origin, section: section.to_string(), copy: None });
+    }
+    fn ins_copy(&mut self, at: usize, text: String, origin: Origin, section: &str, copy: Range<usize>) {
+        self.seq += 1;
+        self.edits.push(Edit { start: at, end: at, seq: self.seq, text, origin, section: section.to_string(), copy: Some(copy) });
     }
     fn rep(&mut self, r: Range<usize>, text: String, origin: Origin, section: &str) {
         self.seq += 1;
-        self.edits.push(Edit { start: r.start, end: r.end, seq: self.seq, text, origin, section: section.to_string() });
+        self.edits.push(Edit { start: r.start, end: r.end, seq: self.seq, text, origin, section: section.to_string(), copy: None });
     }
     fn rule_log(&mut self, rule: &str, r: &Range<usize>, note: &str) {
         let line = self.line_of(r.start);
@@ -578,8 +620,42 @@ impl<'a> Gen<'a> {
     }
 
     fn do_fn(&mut self, attrs: &[syn::Attribute], vis: Option<&syn::Visibility>, sig: &syn::Signature, block: Option<&syn::Block>, spec: Option<&FnSpec>, in_trait_impl: bool) {
+        self.do_fn_sub(attrs, vis, sig, block, spec, in_trait_impl, None);
+    }
+
+    /// `sub` = Some("stmts A .. B") / Some("block A"): only a region of the body is extracted; no signature edits.
+    fn do_fn_sub(&mut self, attrs: &[syn::Attribute], vis: Option<&syn::Visibility>, sig: &syn::Signature, block: Option<&syn::Block>, spec: Option<&FnSpec>, in_trait_impl: bool, sub: Option<&str>) -> Option<Range<usize>> {
         let fname = sig.ident.to_string();
         let ctx = format!("{} fn {}", self.ctx, fname);
+        if sub.is_some() {
+            let Some(block) = block else { undecided(&format!("{ctx}: no body")) };
+            let blk = br(block.span());
+            let mut scan = Scan { nodes: vec![], stmts: vec![], fn_block: blk.clone() };
+            scan.visit_block(block);
+            scan.nodes.push(Node { kind: "start", name: String::new(), range: blk.start + 1..blk.start + 1, stmt: blk.start + 1..blk.start + 1, block: Some(blk.clone()), header_end: None, body: None, aux: None });
+            scan.nodes.push(Node { kind: "end", name: String::new(), range: blk.end - 1..blk.end - 1, stmt: blk.end - 1..blk.end - 1, block: Some(blk.clone()), header_end: None, body: None, aux: None });
+            let empty = FnSpec::default();
+            let spec = spec.unwrap_or(&empty);
+            self.body_rules(block, &scan, spec);
+            self.body_sections(&scan, spec, &ctx);
+            let sub = sub.unwrap();
+            let region = if let Some(a) = sub.strip_prefix("block ") {
+                let n = resolve(&scan, a, false, &ctx)[0].clone();
+                let Some(b) = n.block else { undecided(&format!("{ctx}: anchor `{a}` has no block")) };
+                b.start + 1..b.end - 1
+            } else if let Some(a) = sub.strip_prefix("expr ") {
+                resolve(&scan, a, false, &ctx)[0].range.clone()
+            } else if let Some(a) = sub.strip_prefix("stmts ") {
+                let (from, to) = match a.find("..") { Some(p) => (a[..p].trim(), a[p + 2..].trim()), None => (a.trim(), a.trim()) };
+                let f = resolve(&scan, from, false, &ctx)[0].stmt.clone();
+                let t = resolve(&scan, to, false, &ctx)[0].stmt.clone();
+                if t.end < f.start { undecided(&format!("{ctx}: statement range `{a}` is reversed")) }
+                f.start..t.end
+            } else {
+                undecided(&format!("{ctx}: bad sub-region `{sub}`"))
+            };
+            return Some(region);
+        }
         self.strip_attrs(attrs);
         if let (Some(v), false) = (vis, in_trait_impl) {
             let at = sig.constness.map(|c| br(c.span()).start).or(sig.asyncness.map(|c| br(c.span()).start)).or(sig.unsafety.map(|c| br(c.span()).start)).unwrap_or(br(sig.fn_token.span()).start);
@@ -639,7 +715,7 @@ impl<'a> Gen<'a> {
                 let o = Origin::Unit { file: s.file.clone(), line: s.line0 };
                 self.ins(at, format!("\n{}", s.text), o, "sig");
             }
-            return;
+            return None;
         };
         let blk = br(block.span());
         for s in spec.sections.iter().filter(|s| s.kind == "sig") {
@@ -657,16 +733,27 @@ impl<'a> Gen<'a> {
         // scan the body
         let mut scan = Scan { nodes: vec![], stmts: vec![], fn_block: blk.clone() };
         scan.visit_block(block);
-        scan.nodes.push(Node { kind: "start", name: String::new(), range: blk.start + 1..blk.start + 1, stmt: blk.start + 1..blk.start + 1, block: Some(blk.clone()), header_end: None, body: None });
-        scan.nodes.push(Node { kind: "end", name: String::new(), range: blk.end - 1..blk.end - 1, stmt: blk.end - 1..blk.end - 1, block: Some(blk.clone()), header_end: None, body: None });
+        scan.nodes.push(Node { kind: "start", name: String::new(), range: blk.start + 1..blk.start + 1, stmt: blk.start + 1..blk.start + 1, block: Some(blk.clone()), header_end: None, body: None, aux: None });
+        scan.nodes.push(Node { kind: "end", name: String::new(), range: blk.end - 1..blk.end - 1, stmt: blk.end - 1..blk.end - 1, block: Some(blk.clone()), header_end: None, body: None, aux: None });
         let _ = &scan.fn_block;
         // generic body rewrites
-        self.body_rules(block, &scan);
+        self.body_rules(block, &scan, spec);
+        self.body_sections(&scan, spec, &ctx);
+        None
+    }
+
+    fn body_sections(&mut self, scan: &Scan, spec: &FnSpec, ctx: &str) {
+        let scan = scan;
         for s in &spec.sections {
             let o = Origin::Unit { file: s.file.clone(), line: s.line0 };
             let sctx = format!("{ctx} ({}:{})", s.file, s.line0 - 1);
             match s.kind.as_str() {
                 "ret" | "sig" | "param" => {}
+                "loop" if s.arg.trim().ends_with(".chain") => {
+                    if !self.rules.contains("R12") {
+                        undecided(&format!("{sctx}: //@loop K.chain needs rule R12"));
+                    }
+                }
                 "loop" => {
                     let k: usize = s.arg.trim().parse().unwrap_or_else(|_| undecided(&format!("{sctx}: bad loop ordinal")));
                     let loops: Vec<&Node> = scan.nodes.iter().filter(|n| matches!(n.kind, "while" | "for" | "loop")).collect();
@@ -674,7 +761,7 @@ impl<'a> Gen<'a> {
                     self.ins(n.header_end.unwrap(), format!("\n{}", s.text), o, &format!("loop{k}"));
                 }
                 "closure" => {
-                    let n = resolve(&scan, &format!("closure #{}", s.arg.trim()), false, &sctx)[0].clone();
+                    let n = resolve(scan, &format!("closure #{}", s.arg.trim()), false, &sctx)[0].clone();
                     self.ins(n.header_end.unwrap(), format!(" {}", s.text), o, &format!("closure{}", s.arg.trim()));
                     if n.block.is_none() {
                         let b = n.body.clone().unwrap();
@@ -686,7 +773,7 @@ impl<'a> Gen<'a> {
                 "before" | "after" | "before-each" | "after-each" => {
                     let all = s.kind.ends_with("-each");
                     let before = s.kind.starts_with("before");
-                    let nodes: Vec<Node> = resolve(&scan, &s.arg, all, &sctx).into_iter().cloned().collect();
+                    let nodes: Vec<Node> = resolve(scan, &s.arg, all, &sctx).into_iter().cloned().collect();
                     for n in nodes {
                         let at = if before { n.stmt.start } else { n.stmt.end };
                         let sec = format!("{}:{}", s.kind, s.arg);
@@ -698,7 +785,7 @@ impl<'a> Gen<'a> {
                     }
                 }
                 "inside-start" | "inside-end" => {
-                    let n = resolve(&scan, &s.arg, false, &sctx)[0].clone();
+                    let n = resolve(scan, &s.arg, false, &sctx)[0].clone();
                     let Some(b) = n.block else { undecided(&format!("{sctx}: anchor `{}` has no block", s.arg)) };
                     let sec = format!("{}:{}", s.kind, s.arg);
                     if s.kind == "inside-start" {
@@ -715,7 +802,7 @@ impl<'a> Gen<'a> {
                     if !self.rules.contains(&rule) {
                         undecided(&format!("{sctx}: rule {rule} not enabled for this item"));
                     }
-                    let n = resolve(&scan, &anchor, false, &sctx)[0].clone();
+                    let n = resolve(scan, &anchor, false, &sctx)[0].clone();
                     let sec = format!("{}:{}", s.kind, anchor);
                     match s.kind.as_str() {
                         "wrap" => {
@@ -735,16 +822,76 @@ impl<'a> Gen<'a> {
                         }
                     }
                 }
+                "wrap-each" | "replace-each" | "delete-each" | "arg-each" => {
+                    let (rule, anchor) = match s.arg.find(char::is_whitespace) {
+                        Some(p) => (s.arg[..p].to_string(), s.arg[p..].trim().to_string()),
+                        None => undecided(&format!("{sctx}: //@{} needs RULE ANCHOR", s.kind)),
+                    };
+                    if !self.rules.contains(&rule) {
+                        undecided(&format!("{sctx}: rule {rule} not enabled for this item"));
+                    }
+                    let nodes: Vec<Node> = resolve(scan, &anchor, true, &sctx).into_iter().cloned().collect();
+                    let sec = format!("{}:{}", s.kind, anchor);
+                    for n in nodes {
+                        match s.kind.as_str() {
+                            "wrap-each" => {
+                                let t = s.text.trim();
+                                let Some(p) = t.find("$$") else { undecided(&format!("{sctx}: //@wrap-each body needs $$")) };
+                                self.rule_log(&rule, &n.range, &format!("wrapped as `{t}`"));
+                                self.ins(n.range.start, t[..p].to_string(), o.clone(), &sec);
+                                self.ins(n.range.end, t[p + 2..].to_string(), o.clone(), &sec);
+                            }
+                            "replace-each" => {
+                                self.rule_log(&rule, &n.range, &format!("replaced by `{}`", s.text.trim()));
+                                self.rep(n.range.clone(), s.text.trim_end().to_string(), o.clone(), &sec);
+                            }
+                            "delete-each" => {
+                                self.rule_log(&rule, &n.stmt, "statement deleted");
+                                self.rep(n.stmt.clone(), s.text.trim_end().to_string(), o.clone(), &sec);
+                            }
+                            _ => {
+                                let Some((close, has)) = n.aux else { undecided(&format!("{sctx}: //@arg-each needs a call or mcall anchor")) };
+                                self.rule_log(&rule, &n.range, &format!("argument `{}` appended", s.text.trim()));
+                                self.ins(close, format!("{}{}", if has { ", " } else { "" }, s.text.trim()), o.clone(), &sec);
+                            }
+                        }
+                    }
+                }
+                "splice" => {
+                    // //@splice RULE OUTER | INNER : OUTER's text becomes `prefix INNER-text suffix`
+                    let (rule, rest) = match s.arg.find(char::is_whitespace) {
+                        Some(p) => (s.arg[..p].to_string(), s.arg[p..].trim().to_string()),
+                        None => undecided(&format!("{sctx}: //@splice needs RULE OUTER | INNER")),
+                    };
+                    if !self.rules.contains(&rule) {
+                        undecided(&format!("{sctx}: rule {rule} not enabled for this item"));
+                    }
+                    let Some(bar) = rest.find('|') else { undecided(&format!("{sctx}: //@splice needs OUTER | INNER")) };
+                    let outer = resolve(scan, rest[..bar].trim(), false, &sctx)[0].clone();
+                    let inner = resolve(scan, rest[bar + 1..].trim(), false, &sctx)[0].clone();
+                    let inner_r = if inner.kind == "closure" { inner.body.clone().unwrap() } else { inner.range.clone() };
+                    if !(outer.range.start <= inner_r.start && inner_r.end <= outer.range.end) {
+                        undecided(&format!("{sctx}: //@splice inner node is not inside the outer node"));
+                    }
+                    let t = s.text.trim();
+                    let Some(p) = t.find("$$") else { undecided(&format!("{sctx}: //@splice body needs $$")) };
+                    let sec = format!("splice:{}", rest);
+                    self.rule_log(&rule, &outer.range, &format!("spliced as `{t}` with $$ = the inner node's text"));
+                    self.rep(outer.range.start..inner_r.start, t[..p].to_string(), o.clone(), &sec);
+                    self.rep(inner_r.end..outer.range.end, t[p + 2..].to_string(), o, &sec);
+                }
                 other => undecided(&format!("{sctx}: section //@{other} not valid in a function")),
             }
         }
     }
 
-    fn body_rules(&mut self, block: &syn::Block, _scan: &Scan) {
-        struct V<'g, 'a> {
+    fn body_rules(&mut self, block: &syn::Block, scan: &Scan, spec: &FnSpec) {
+        struct V<'g, 'a, 's> {
             g: &'g mut Gen<'a>,
+            scan: &'s Scan,
+            spec: &'s FnSpec,
         }
-        impl<'g, 'a, 'ast> Visit<'ast> for V<'g, 'a> {
+        impl<'g, 'a, 's, 'ast> Visit<'ast> for V<'g, 'a, 's> {
             fn visit_stmt(&mut self, s: &'ast syn::Stmt) {
                 if let syn::Stmt::Item(_) = s {
                     return;
@@ -763,6 +910,32 @@ impl<'a> Gen<'a> {
             }
             fn visit_expr(&mut self, e: &'ast syn::Expr) {
                 match e {
+                    syn::Expr::ForLoop(fl) if self.g.rules.contains("R12") => {
+                        if let syn::Expr::MethodCall(mc) = &*fl.expr {
+                            if mc.method == "chain" && mc.args.len() == 1 {
+                                let whole = br(e.span());
+                                let recv_end = br(mc.receiver.span()).end;
+                                let iter_end = br(fl.expr.span()).end;
+                                let second = self.g.src[br(mc.args[0].span())].to_string();
+                                let pat = self.g.src[br(fl.pat.span())].to_string();
+                                let body = br(fl.body.span());
+                                // ordinal of this loop among the function's loops
+                                let loops: Vec<&Node> = self.scan.nodes.iter().filter(|n| matches!(n.kind, "while" | "for" | "loop")).collect();
+                                let k = loops.iter().position(|n| n.range == whole).unwrap_or(usize::MAX);
+                                let want = format!("{k}.chain");
+                                let inv = self.spec.sections.iter().find(|s| s.kind == "loop" && s.arg.trim() == want);
+                                self.g.rule_log("R12", &whole, "for over a.chain(b) split into two loops");
+                                let o = self.g.gen("R12");
+                                self.g.rep(recv_end..iter_end, String::new(), o.clone(), "rewrite");
+                                let (inv_text, inv_o) = match inv {
+                                    Some(s) => (format!("\n{}", s.text), Origin::Unit { file: s.file.clone(), line: s.line0 }),
+                                    None => (String::new(), o.clone()),
+                                };
+                                self.g.ins(whole.end, format!("\nfor {pat} in {second} "), o, "rewrite");
+                                self.g.ins_copy(whole.end, inv_text, inv_o, &format!("loop{want}"), body);
+                            }
+                        }
+                    }
                     syn::Expr::Binary(b) if self.g.rules.contains("R11") && matches!(b.op, syn::BinOp::RemAssign(_) | syn::BinOp::DivAssign(_)) => {
                         let op = if matches!(b.op, syn::BinOp::RemAssign(_)) { "%" } else { "/" };
                         let r = br(b.op.span());
@@ -795,12 +968,13 @@ impl<'a> Gen<'a> {
                 syn::visit::visit_expr(self, e);
             }
         }
-        let mut v = V { g: self };
+        let mut v = V { g: self, scan, spec };
         v.visit_block(block);
     }
 }
 
-fn apply(src: &str, region: Range<usize>, mut edits: Vec<Edit>, file: &str, func: &str, out: &mut Vec<Piece>, ctx: &str) {
+fn apply(src: &str, region: Range<usize>, all_edits: Vec<Edit>, file: &str, func: &str, out: &mut Vec<Piece>, ctx: &str) {
+    let mut edits = all_edits.clone();
     edits.retain(|e| e.start >= region.start && e.end <= region.end);
     edits.sort_by(|a, b| a.start.cmp(&b.start).then((a.end != a.start).cmp(&(b.end != b.start))).then(a.seq.cmp(&b.seq)));
     let mut cur = region.start;
@@ -818,6 +992,11 @@ fn apply(src: &str, region: Range<usize>, mut edits: Vec<Edit>, file: &str, func
         }
         if !e.text.is_empty() {
             out.push(Piece { text: e.text.clone(), origin: e.origin.clone(), func: func.to_string(), section: e.section.clone() });
+        }
+        if let Some(c) = &e.copy {
+            // only edits strictly inside the copied region (not the loop's own invariant, not the chain edits)
+            let inner: Vec<Edit> = all_edits.iter().filter(|x| x.copy.is_none() && x.start > c.start && x.end < c.end).cloned().collect();
+            apply(src, c.clone(), inner, file, func, out, ctx);
         }
         cur = e.end;
         if e.end > e.start {
@@ -878,13 +1057,28 @@ fn main() {
                 let (src, file) = sources.get(&ex.file).map(|(s, f)| (s.clone(), *f)).unwrap();
                 let src: &'static str = Box::leak(src.into_boxed_str());
                 let ctx = format!("{}:{} `{}`", args[2], ex.line, ex.path.join(" / "));
-                let found = find_in_items(src, &file.items, &ex.path, &ctx);
+                let mut sub: Option<String> = None;
+                let mut path = ex.path.clone();
+                if let Some(last) = path.last() {
+                    if last.starts_with("stmts ") || last.starts_with("block ") || last.starts_with("expr ") {
+                        sub = path.pop();
+                    }
+                }
+                let found = find_in_items(src, &file.items, &path, &ctx);
                 let mut g = Gen { repo_file: ex.file.clone(), src, edits: vec![], seq: 0, log: vec![], rules: ex.rules.clone(), ctx: ctx.clone(), canary };
                 let spec_for = |name: &str| ex.fns.iter().find(|f| f.name == name || f.name.is_empty());
                 let (region, func_label): (Range<usize>, String);
                 let mut prefix = String::new();
                 let mut suffix = String::new();
                 match found {
+                    Found::ImplFn(_, f) if sub.is_some() => {
+                        func_label = f.sig.ident.to_string();
+                        region = g.do_fn_sub(&f.attrs, Some(&f.vis), &f.sig, Some(&f.block), spec_for(&func_label), false, sub.as_deref()).unwrap();
+                    }
+                    Found::Item(syn::Item::Fn(f)) if sub.is_some() => {
+                        func_label = f.sig.ident.to_string();
+                        region = g.do_fn_sub(&f.attrs, Some(&f.vis), &f.sig, Some(&f.block), spec_for(&func_label), false, sub.as_deref()).unwrap();
+                    }
                     Found::ImplFn(im, f) => {
                         let whole = br(f.span());
                         let start = region_start(&f.attrs, whole.clone());
@@ -957,6 +1151,10 @@ fn main() {
                                     let o = Origin::Unit { file: h.file.clone(), line: h.line0 };
                                     g.rep(r, format!("{} ", h.text.trim()), o, "header");
                                 }
+                                if let Some(m) = &ex.members {
+                                    let o = Origin::Unit { file: m.file.clone(), line: m.line0 };
+                                    g.ins(br(im.brace_token.span.open()).end, format!("\n{}", m.text), o, "members");
+                                }
                                 for ii in &im.items {
                                     let (name, r, attrs): (String, Range<usize>, &[syn::Attribute]) = match ii {
                                         syn::ImplItem::Fn(f) => (f.sig.ident.to_string(), br(f.span()), &f.attrs),
@@ -994,6 +1192,16 @@ fn main() {
                                 func_label = String::new();
                                 g.strip_attrs(&tr.attrs);
                                 g.make_pub(&tr.vis, br(tr.trait_token.span()).start);
+                                if let Some(m) = &ex.members {
+                                    let o = Origin::Unit { file: m.file.clone(), line: m.line0 };
+                                    g.ins(br(tr.brace_token.span.open()).end, format!("\n{}", m.text), o, "members");
+                                }
+                                if let Some(h) = &ex.header {
+                                    let r = br(tr.trait_token.span()).start..br(tr.brace_token.span.open()).start;
+                                    g.rule_log("header-override", &r, h.text.trim());
+                                    let o = Origin::Unit { file: h.file.clone(), line: h.line0 };
+                                    g.rep(r, format!("{} ", h.text.trim()), o, "header");
+                                }
                                 for ii in &tr.items {
                                     let (name, r, attrs): (String, Range<usize>, &[syn::Attribute]) = match ii {
                                         syn::TraitItem::Fn(f) => (f.sig.ident.to_string(), br(f.span()), &f.attrs),
